@@ -6,12 +6,21 @@ disappeared was folded into its callers, and a rule anchored on it reports `not 
 import json, os, sys
 VERIF = os.path.dirname(os.path.dirname(os.path.abspath(__file__)))
 sys.path.insert(0, VERIF)
-from tlint import facts
+from tlint import facts, baseline
 fx = facts.Facts("full")
 out = {}
 for name in ("temporal_rs", "temporal_capi", "temporal_provider"):
     c = fx[name]
-    out[name] = {f.path: bool(f.reachable) for f in c.fns}
-    print(name, len(out[name]), sum(out[name].values()))
+    out[name] = {f.path: [bool(f.reachable), baseline.fingerprint(f.d, {'temporal_rs', 'temporal_capi', 'temporal_provider'})] for f in c.fns}
+    print(name, len(out[name]), sum(v[0] for v in out[name].values()))
 with open(os.path.join(VERIF, "tlint", "data", "baseline_fns.json"), "w") as fh:
     json.dump(out, fh, indent=0, sort_keys=True)
+CR = {'temporal_rs', 'temporal_capi', 'temporal_provider'}
+items = {"adts": {}, "consts": {}}
+for name in ("temporal_rs", "temporal_capi", "temporal_provider"):
+    c = fx[name]
+    items["adts"][name] = {p: baseline.adt_fingerprint(a, CR) for p, a in c.adts.items()}
+    items["consts"][name] = {p: baseline.const_fingerprint(k, CR) for p, k in c.consts.items()}
+    print(name, "adts", len(items["adts"][name]), "consts", len(items["consts"][name]))
+with open(os.path.join(VERIF, "tlint", "data", "baseline_items.json"), "w") as fh:
+    json.dump(items, fh, indent=0, sort_keys=True)
